@@ -169,6 +169,15 @@ def render(mode=None, canary=None):
     w('        forall|ver: int| 0 <= ver ==> (sel_from_0(ver) ==> sel_from_1(ver)) && (sel_from_1(ver) ==> sel_from_2(ver)),')
     w('        forall|i: int| 0 <= i < kw_count() ==> sel_from_%d(#[trigger] kw_ver(i)),' % min(latest, 2))
     w('{}')
+    w('// C09 / C20: no keyword starts with # (the assembler strips a leading # from a symbol before looking it up, so such a name would not be read back)')
+    w('pub proof fn no_keyword_starts_with_hash()')
+    w('    ensures forall|i: int| 0 <= i < kw_count() ==> (#[trigger] kw_n(i)).len() > 0 && kw_n(i)[0] != 0x23,')
+    w('{')
+    w('    assert forall|i: int| 0 <= i < kw_count() implies (#[trigger] kw_n(i)).len() > 0 && kw_n(i)[0] != 0x23 by {')
+    for i, r in enumerate(rows):
+        w('        if i == %d { assert(kw_n(%d).len() > 0 && kw_n(%d)[0] != 0x23) by(compute_only); }' % (i, i, i))
+    w('    }')
+    w('}')
     w('// C20: keyword_from_atom(v) and keyword_to_atom(v) pick the table of the same version, min(v, 2)')
     w('pub proof fn selectors_agree()')
     w('    ensures forall|v: int| 0 <= v ==> keyword_from_atom_table(v) == keyword_to_atom_table(v) && keyword_from_atom_table(v) == (if v <= 2 { v } else { 2 }),')
